@@ -78,6 +78,9 @@ func runC14(w *World, r *Report, tier string) {
 	switchConsts := map[string]bool{}
 	badProv, badDisp := "", ""
 	nReach := 0
+	// (the way out of the selection loop after an iteration that found nothing is a path too: a loop variable that
+	// doubles as the result would carry the last, unsupported, mechanism out of the loop)
+	walkLoopExits = true
 	errW := walkPaths(entryLoc(sasl), isAP, nil, 50000, func(path []ssa.Instruction, end pathEnd) {
 		if end == endCycle || !isAP(path[len(path)-1]) {
 			return
@@ -173,6 +176,7 @@ func runC14(w *World, r *Report, tier string) {
 			switchConsts[got] = true
 		}
 	})
+	walkLoopExits = false
 	if errW != nil {
 		r.Undecided("O1", "xmpp.authSASL→authPlain#mech", w.ipos(ap), errW.Error())
 	} else {
